@@ -292,7 +292,7 @@ def rembBody (sender : UInt32) (bitrate : Nat) (ssrcs : List UInt32) : Bytes :=
 def twccBody (sender media : UInt32) (baseSeq statusCount : UInt16) (refTime : UInt32)
     (fbCount : UInt8) (payload : Bytes) : Bytes :=
   be32 sender ++ be32 media ++ be16 baseSeq ++ be16 statusCount ++
-    be24n (refTime.toNat % 16777216) ++ [fbCount] ++ payload
+    be24n (refTime.toNat % 16777216) ++ [fbCount] ++ payload      -- `& 0x00FF_FFFF` = c15TwccRefMask (pinned by const_values)
 
 /-- the bytes `write_rtcp_packet` appends (when the length fits) -/
 def writeRtcp (fmt pt : Nat) (body : Bytes) : Bytes :=
@@ -347,9 +347,7 @@ def marshalOne : Rtcp → Except Err Bytes
   | .remb s br ss =>
     if ss.length > c15RembMaxSsrcs then .error (.rtcp "too many REMB SSRC entries")
     else emit c15FmtApp c15RtcpPsfb (rembBody s br ss)
-  | .twcc s m b c r f pl =>
-    if r.toNat > 16777215 then .error (.rtcp "TWCC reference time does not fit 24 bits")    -- 0x00FF_FFFF
-    else twccEmit (twccBody s m b c r f pl)
+  | .twcc s m b c r f pl => twccEmit (twccBody s m b c r f pl)   -- the reference time wraps modulo 2^24
 
 /-- `marshal_rtcp_packets` -/
 def marshalCompound : List Rtcp → Except Err Bytes
